@@ -14,7 +14,6 @@ import (
 	"github.com/metrico/qryn/writer/model"
 	"github.com/metrico/qryn/writer/plugin"
 	"github.com/metrico/qryn/writer/service"
-	"github.com/metrico/qryn/writer/service/impl"
 	"github.com/metrico/qryn/writer/utils/numbercache"
 )
 
@@ -37,7 +36,11 @@ type Writer struct {
 	Router *mux.Router
 	Server *httptest.Server
 	Cloki  *clconfig.ClokiConfig
+	spy    *spyLog
 }
+
+// SvcCalls returns what the service-boundary observer recorded so far.
+func (w *Writer) SvcCalls() []SvcCall { return w.spy.snapshot() }
 
 // Shutdown closes the test server without ever hanging the caller: httptest.Server.Close waits for
 // outstanding handlers, and a handler that never returns is exactly what some checks look for.
@@ -75,7 +78,8 @@ func StartWriter(cfg WriterCfg, l *Ledger) *Writer {
 	p.ServicesObject.DatabaseNodeMap = []model.DataDatabasesMap{{ClokiBaseDataBase: c.Setting.DATABASE_DATA[0]}}
 	p.ServicesObject.Dbv3Map = []ch_wrapper.IChClientFactory{l.Factory()}
 	service.CreateColPools(100)
-	p.CreateStaticServiceRegistry(*c.Setting, &impl.DevInsertServiceFactory{})
+	spy := &spyLog{}
+	p.CreateStaticServiceRegistry(*c.Setting, &spyFactory{log: spy})
 	controllerv1.Registry = plugin.ServiceRegistry
 	controllerv1.FPCache = plugin.GoCache
 	if cfg.CacheTTLms > 0 {
@@ -88,5 +92,5 @@ func StartWriter(cfg WriterCfg, l *Ledger) *Writer {
 	mc := controllerv1.NewMiddlewareConfig(controllerv1.WithExtraMiddlewareDefault...)
 	mt := controllerv1.NewMiddlewareConfig(controllerv1.WithExtraMiddlewareTempo...)
 	p.RegisterRoutes(*c.Setting, mc, mt, r)
-	return &Writer{Cfg: cfg, Ledger: l, Router: r, Server: httptest.NewServer(r), Cloki: c}
+	return &Writer{Cfg: cfg, Ledger: l, Router: r, Server: httptest.NewServer(r), Cloki: c, spy: spy}
 }
